@@ -260,7 +260,7 @@ pub fn targeted(ctx: &mut Ctx, k: usize) -> IRNode {
     let j12 = |lk: Vec<usize>, rk: Vec<usize>| { let mut s = vec!["A".to_string(), "B".into()]; for (i, n) in ["B", "C"].iter().enumerate() { if !rk.contains(&i) { s.push(n.to_string()); } }
         IRNode::Join { left: bx(r1()), right: bx(r2()), left_keys: lk, right_keys: rk, output_schema: s } };
     let c = ctx.range(0, 3);
-    match k % 16 {
+    match k % 19 {
         0 => IRNode::Map { input: bx(r1()), projection: vec![0, 1], output_schema: vec!["A".into(), "B".into()] },
         1 => IRNode::Map { input: bx(IRNode::Map { input: bx(r3()), projection: vec![2, 0, 1], output_schema: vec!["E".into(), "C".into(), "D".into()] }), projection: vec![1, 0], output_schema: vec!["C".into(), "E".into()] },
         2 => IRNode::Filter { input: bx(r1()), predicate: Predicate::True },
@@ -276,7 +276,13 @@ pub fn targeted(ctx: &mut Ctx, k: usize) -> IRNode {
         12 => IRNode::Filter { input: bx(IRNode::Map { input: bx(j12(vec![0], vec![1])), projection: vec![2, 1], output_schema: vec!["B2".into(), "B".into()] }), predicate: Predicate::ColumnGtConst(0, c) },
         13 => IRNode::Map { input: bx(IRNode::Join { left: bx(r1()), right: bx(r3()), left_keys: vec![0, 1], right_keys: vec![2, 0], output_schema: vec!["A".into(), "B".into(), "D".into()] }), projection: vec![2, 0], output_schema: vec!["D".into(), "A".into()] },
         14 => IRNode::Join { left: bx(IRNode::Union { inputs: vec![] }), right: bx(r1()), left_keys: vec![], right_keys: vec![], output_schema: vec!["A".into(), "B".into()] },
-        _ => IRNode::Filter { input: bx(IRNode::Join { left: bx(IRNode::Union { inputs: vec![IRNode::Filter { input: bx(r1()), predicate: Predicate::False }, r1()] }), right: bx(r2()), left_keys: vec![1], right_keys: vec![0], output_schema: vec!["A".into(), "B".into(), "C".into()] }), predicate: Predicate::ColumnGtConst(0, c) },
+        15 => IRNode::Filter { input: bx(IRNode::Join { left: bx(IRNode::Union { inputs: vec![IRNode::Filter { input: bx(r1()), predicate: Predicate::False }, r1()] }), right: bx(r2()), left_keys: vec![1], right_keys: vec![0], output_schema: vec!["A".into(), "B".into(), "C".into()] }), predicate: Predicate::ColumnGtConst(0, c) },
+        // cartesian join whose left input is a Union with a statically empty first branch: output_schema() reports width 0
+        16 => IRNode::Filter { input: bx(IRNode::Join { left: bx(IRNode::Union { inputs: vec![IRNode::Filter { input: bx(r1()), predicate: Predicate::False }, r1()] }), right: bx(r2()), left_keys: vec![], right_keys: vec![], output_schema: vec!["A".into(), "B".into(), "B2".into(), "C".into()] }), predicate: Predicate::ColumnGtConst(0, c) },
+        // Distinct above an Aggregate above a Join of a duplicate-producing projection: Boolean annotation reaches the aggregate input
+        17 => IRNode::Distinct { input: bx(IRNode::Aggregate { input: bx(IRNode::Join { left: bx(IRNode::Map { input: bx(r1()), projection: vec![0], output_schema: vec!["A".into()] }), right: bx(scan("r4", &["A"])), left_keys: vec![0], right_keys: vec![0], output_schema: vec!["A".into()] }),
+                 group_by: vec![0], aggregations: vec![(AggregateFunction::Count, 0)], output_schema: vec!["A".into(), "n".into()] }) },
+        _ => IRNode::Distinct { input: bx(IRNode::Aggregate { input: bx(IRNode::Distinct { input: bx(r1()) }), group_by: vec![0], aggregations: vec![(AggregateFunction::Count, 0)], output_schema: vec!["A".into(), "n".into()] }) },
     }
 }
 pub fn _u(_: &Value) {}
